@@ -7,8 +7,11 @@ count code and the emit code kept separate as in Go), for every field combinatio
 coq/Properties/C04_ddl.v — the same for the DDL printers Column, Index, explainCreateQuery (main tally, "Columns definition",
 "Storage definition", CREATE FUNCTION / USER / DICTIONARY variants), explainAlterQuery and countAlterCommandChildren vs
 explainAlterCommand (model Ddl/DdlExplainModel.v): equivalences header = emitted children <-> stated field condition, with
-refutation lemmas where the Go code does not have the property.
-Ties: Go selectcount / ddlcount vs extracted models on exhaustive field combinations (built directly as ast values); the EXTRACTED
+refutation lemmas where the Go code does not have the property;
+coq/Properties/C04_stmt.v — the same for the remaining statement printers (INSERT, DROP, UNDROP, RENAME, EXCHANGE, TRUNCATE, OPTIMIZE,
+DELETE, CHECK, USE, DESCRIBE, EXISTS, SHOW, SYSTEM, EXPLAIN, DETACH, ATTACH, BACKUP, RESTORE, KILL, CREATE INDEX, UPDATE, PARALLEL WITH,
+the statements Node prints inline), dictionary.go and tables.go (model Stmt/StmtExplainModel.v).
+Ties: Go selectcount / ddlcount / stmtcount vs extracted models on exhaustive field combinations (built directly as ast values); the EXTRACTED
 verified checker run on the real EXPLAIN text of every corpus statement, of mutants accepted by the parser, and of
 generated statements; node kinds regenerated from the ClickHouse goldens."""
 import os
@@ -19,7 +22,8 @@ TRUSTED = [
     "Coq 8.16.1 kernel and vm_compute; Print Assumptions of every theorem: closed under the global context",
     "Select/SelectExplainModel.v: hand transcription of countSelectQueryChildren / explainSelectQuery (+ inherited WITH), countSelectUnionChildrenTail / explainUnionTail and both union printers, explainSelectIntersectExceptQuery, tied to the code by the selectcount correspondence (header count, direct children and md5 of the text)",
     "Ddl/DdlExplainModel.v: hand transcription of Column, Index, explainCreateQuery (all variants and sub-tallies), explainAlterQuery, countAlterCommandChildren / explainAlterCommand, explainProjection, explainStatisticsCommand, tied to the code by the ddlcount correspondence (header count, direct children, md5 of the text, whole-subtree tree check); callees (Node on expressions / types / statements, explainFunctionCall, dictionary attribute / definition printers) are assumed to print one rooted tree",
-    "printers outside the two models (expressions, tables, dictionaries, the other statements): only the verified oracle applied to real output (search, not proof) — the C04 claim is partial there",
+    "Stmt/StmtExplainModel.v: hand transcription of the statement printers of statements.go outside CREATE / ALTER (explainInsertQuery ... explainParallelWithQuery), of the statements Node prints inline in explain.go, of dictionary.go and of tables.go, tied to the code by the stmtcount correspondence (header count, direct children, md5 of the text, whole-subtree tree check; exhaustive over the field domains of checks/gen_stmt_cases.py); the unions under INSERT / EXPLAIN are the SELECT model's; other callees (Node on expressions / types / table identifiers / nested statements, explainFunctionCall(WithAlias), formatSampleRatio's text) are assumed to print one rooted tree / one line; explainTablesInSelectQuery is modelled and proved but cannot be reached through parser.Explain (no correspondence for it)",
+    "printers outside the three models (expressions, functions, data types, format.go): only the verified oracle applied to real output (search, not proof) — the C04 claim is partial there",
     "translator/cmd/genkinds: node-kind vocabulary = first words of node lines of all explain*.txt goldens; extraction (ExtrOcamlBasic only) + OCaml glue",
 ]
 
@@ -27,7 +31,7 @@ TRUSTED = [
 def run(rep):
     st = verif.proof_stage(rep, "C04", needs_translators=["gentables", "genkinds"])
     broken = list(st["broken"])
-    broken += verif.build_topic(go_pkgs=("psearch", "selectcount", "ddlcount", "explaindump"), drivers=(("tree", "tree_ex"), ("selectcount", "selectcount_ex"), ("ddlcount", "ddlcount_ex")))
+    broken += verif.build_topic(go_pkgs=("psearch", "selectcount", "ddlcount", "stmtcount", "explaindump"), drivers=(("tree", "tree_ex"), ("selectcount", "selectcount_ex"), ("ddlcount", "ddlcount_ex"), ("stmtcount", "stmtcount_ex")))
     found = False
     if not any(b["obligation"].startswith("build:") for b in broken):
         quick = rep.tier == "quick"
@@ -80,6 +84,9 @@ def run(rep):
         # (1b) DDL printers (Column, Index, CreateQuery, AlterQuery, AlterCommand): model vs code on field combinations
         ddl = ddl_correspondence(rep, broken, quick)
         found = found or ddl.pop("found")
+        # (1c) the remaining statement printers, dictionary.go, tables.go: model vs code on field combinations
+        stmt = stmt_correspondence(rep, broken, quick)
+        found = found or stmt.pop("found")
         # (2) verified checker on the real EXPLAIN output of VALID statements (the property quantifies over syntactically valid
         # statements: corpus statements; mutants accepted by the permissive parser are not in its scope and belong to C03)
         tin = os.path.join(verif.BUILD, "tree_in.txt")
@@ -93,6 +100,20 @@ def run(rep):
         rc4, out4 = verif.sh("python3 %s %d %d --hex | %s -v" % (os.path.join(verif.ROOT, "checks", "gen_sql_grammar.py"), rep.seed, ngram, os.path.join(verif.BUILD, "explaindump")),
                              shell=True, timeout=3000)
         gram_lines = out4.splitlines()
+        # a second stream with --gaps (valid ClickHouse forms the current parser may reject or split in two): only statements
+        # that the parser accepts as exactly ONE statement are used, so a parser change that starts accepting such a form is
+        # exercised by the oracle and by the parser-side invariant at once
+        rc5, out5 = verif.sh("python3 %s %d %d --gaps --hex | %s -v" % (os.path.join(verif.ROOT, "checks", "gen_sql_grammar.py"), rep.seed + 7, ngram // 2, os.path.join(verif.BUILD, "explaindump")),
+                             shell=True, timeout=3000)
+        per_sql = {}
+        for l in out5.splitlines():
+            per_sql.setdefault(l.split("\t")[0], []).append(l)
+        gap_lines = []
+        for ls in per_sql.values():
+            main = [l for l in ls if not l.split("\t")[-1].startswith("INV:")]
+            if len(main) == 1 and not main[0].endswith("\tERR"):
+                gap_lines += ls
+        gram_lines += gap_lines
         gram_err = sum(1 for l in gram_lines if l.endswith("\tERR") or l.endswith("\tPARSEPANIC"))
         if rc4 != 0:
             broken.append({"obligation": "harness:gen_sql_grammar|explaindump", "detail": out4[-500:]})
@@ -121,7 +142,7 @@ def run(rep):
                             samples.append(bytes.fromhex(p[0]).decode("utf-8", "replace")[:140])
                         except ValueError:
                             pass
-        res = {"samples": samples, "counts": {"explained": n_txt, "grammar_statements": len(gram_lines), "grammar_rejected_by_parser": gram_err}}
+        res = {"samples": samples, "counts": {"explained": n_txt, "grammar_statements": len(gram_lines), "grammar_rejected_by_parser": gram_err, "gap_statements_accepted_as_one": len(gap_lines)}}
         tout = tin + ".out"
         rc2, e2 = verif.parallel_map_files([os.path.join(verif.BUILD, "tree_driver")], tin, tout, timeout=6000, unlimited_stack=True)
         verdicts = {}
@@ -151,12 +172,14 @@ def run(rep):
         if rc2 != 0:
             broken.append({"obligation": "driver:tree", "detail": e2[-500:]})
         rep.coverage.update({
-            "evaluations": n_txt + n_sel + ddl["ddl_model_cases"], "distinct_nontrivial": n_txt,
+            "evaluations": n_txt + n_sel + ddl["ddl_model_cases"] + stmt["stmt_model_cases"], "distinct_nontrivial": n_txt,
             "rule": "EXPLAIN text of every corpus statement (quick: the 9.7k-statement sample in /verif/corpus; thorough: every statement of every enabled parser/testdata/*/query.sql) and of 20k (quick) / 400k (thorough) statements of the verification grammar (checks/gen_sql_grammar.py: SELECT with every clause subset, set operations, INSERT, CREATE, ALTER, utility statements, :: literals, nesting to 300 levels) run through the extracted verified checker check_text with the node kinds of the goldens; "
                     "plus Go-vs-model comparison of header count / printed children / text hash on SelectQuery, union, intersect, INSERT, EXPLAIN and CREATE ASTs built directly (exhaustive 2^16 / 2^13 field combinations in the thorough tier); "
-                    "plus the same Go-vs-model comparison (and a whole-subtree tree check on both sides) on ColumnDeclaration, IndexDefinition, AlterCommand (every command type x every combination of the fields its tally or emission reads), AlterQuery and CreateQuery ASTs built directly (checks/gen_ddl_cases.py; counts under coverage.ddl); distinct_nontrivial = texts checked",
+                    "plus the same Go-vs-model comparison (and a whole-subtree tree check on both sides) on ColumnDeclaration, IndexDefinition, AlterCommand (every command type x every combination of the fields its tally or emission reads), AlterQuery and CreateQuery ASTs built directly (checks/gen_ddl_cases.py; counts under coverage.ddl); "
+                    "plus the same comparison on InsertQuery, DropQuery, UndropQuery, RenameQuery, ExchangeQuery, TruncateQuery, OptimizeQuery, DeleteQuery, CheckQuery, UseQuery, DescribeQuery, ExistsQuery, ShowQuery (every ShowType), SystemQuery, ExplainQuery (top level and nested), DetachQuery, AttachQuery, BackupQuery, RestoreQuery, KillQuery, CreateIndexQuery, Assignment, UpdateQuery, ParallelWithQuery, the statements Node prints inline, dictionary attribute / definition and TablesInSelectQueryElement / TableExpression / TableJoin ASTs built directly (checks/gen_stmt_cases.py: the full product of the field domains in the thorough tier; counts under coverage.stmt); distinct_nontrivial = texts checked",
             "samples": res["samples"], "verdicts": verdicts, "select_model_cases": n_sel, "select_model_mismatches": mism, "status_counts": res["counts"],
             "ddl": ddl,
+            "stmt": stmt,
             "trusted_base": TRUSTED,
         })
     verif.report_broken(rep, broken, found)
@@ -306,8 +329,167 @@ def ddl_correspondence(rep, broken, quick):
             "ddl_enumeration": "checks/gen_ddl_cases.py: all 7680 column field combinations; all 12 index definitions; for each of the 45 AlterCommandType constants and 2 other strings all combinations of the fields its tally or emission reads + random commands over all 26 fields; all 48 AlterQuery shapes; CreateQuery: special variants, main-tally field combinations (thorough: all 589824; quick: 6144 over the 12 interacting fields), storage-definition and columns-definition combinations, random queries over all 41 fields"}
 
 
+# ----------------------------------------------------------------------------------------------
+# the remaining statement printers, dictionary.go, tables.go: /verif/build/stmtcount (real printers) vs
+# /verif/build/stmtcount_driver (extracted Stmt/StmtExplainModel.v)
+# ----------------------------------------------------------------------------------------------
+
+_STMT_IDX = None
+
+# SQL texts whose parse is the AST of a refutation witness of Properties/C04_stmt.v: accepted by the permissive parser, no valid
+# ClickHouse statement (outside C04's quantifier); the verified checker is expected to reject their EXPLAIN
+STMT_SQL_WITNESSES = [
+    ("system-flush-logs-settings", "not-clickhouse: SETTINGS is taken only after SYSTEM FLUSH DISTRIBUTED", "SYSTEM FLUSH LOGS system.query_log SETTINGS a = 1"),
+    ("update-without-where", "not-clickhouse: UPDATE requires WHERE", "UPDATE t SET a = 1"),
+    ("attach-dictionary-with-clauses", "not-clickhouse: nothing follows the name of an attached dictionary", "ATTACH DICTIONARY d (a UInt64) PRIMARY KEY a"),
+    ("attach-dictionary-with-clauses", "not-clickhouse: nothing follows the name of an attached dictionary", "ATTACH DICTIONARY db.d ENGINE = Memory"),
+]
+
+
+def stmt_outside(case):
+    """Name of the condition of Properties/C04_stmt.v (inv_system, inv_update_count, inv_attach_count, ...) that the case
+    violates, None when the C04_*_is_tree theorem of its printer applies to it."""
+    global _STMT_IDX
+    if _STMT_IDX is None:
+        import gen_stmt_cases as g
+        _STMT_IDX = {k: {f: i for i, (f, _) in enumerate(fs)} for k, fs in g.KINDS.items()}
+    kind, _, spec = case.partition("\t")
+    idx = _STMT_IDX.get(kind)
+    if idx is None or kind == "SHW":
+        return None
+
+    def v(name):
+        return int(spec[idx[name]])
+    if kind == "SYS":
+        if v("Command") and v("Settings") and (v("Database") or v("Table")):
+            return "system-flush-logs-settings"       # only `SYSTEM FLUSH LOGS db.log SETTINGS ..`, which ClickHouse rejects
+    elif kind == "UPD":
+        if not v("Where"):
+            return "update-without-where"             # only `UPDATE t SET a = 1`, which ClickHouse rejects
+        if v("Assignments") >= 3:
+            return "assignment-nil-value"             # the parser never leaves Assignment.Value nil
+    elif kind == "ASG":
+        if not v("Value"):
+            return "assignment-nil-value"
+    elif kind == "REN":
+        if v("RenameDatabase") and not v("Pairs"):
+            return "rename-database-no-pair"          # RENAME DATABASE without a pair is a parse error
+    elif kind == "ATT":
+        db, tb, dc = v("Database"), v("Table"), v("Dictionary")
+        if (db and tb) or (db and not tb and not dc) or (not db and tb):
+            branch = "general"
+        elif dc:
+            branch = "dictionary"
+        else:
+            branch = "noname"
+        storage = v("Engine") or v("OrderBy") or v("PrimaryKey") or v("PartitionBy") or v("Settings")
+        if branch == "dictionary" and (v("Columns") or v("ColumnsPrimaryKey") or v("Indexes") or v("SelectQuery") or storage):
+            return "attach-dictionary-with-clauses"   # only `ATTACH DICTIONARY d (..) ..`, which ClickHouse rejects
+        if branch == "general" and (v("OrderBy") > 1 or v("PrimaryKey") > 1):
+            return "attach-several-keys"              # the parser wraps several keys in ONE tuple literal
+    elif kind == "TEL":
+        if not v("ArrayJoin") and not v("Table") and not v("Join"):
+            return "tables-element-empty"             # the parser always sets one of them
+    elif kind == "CIX":
+        if not v("ColumnsParenthesized") and v("Columns") >= 2:
+            return "create-index-unparenthesized-columns"   # the parser reads ONE expression without parentheses
+    return None
+
+
+def stmt_texts(case):
+    """Both sides' text for one case (for the replay file)."""
+    import subprocess
+    out = {}
+    for name, binp in (("go", "stmtcount"), ("model", "stmtcount_driver")):
+        try:
+            p = subprocess.run([os.path.join(verif.BUILD, binp), "-text"], input=(case + "\n").encode(), stdout=subprocess.PIPE,
+                               stderr=subprocess.PIPE, timeout=60)
+            f = p.stdout.decode().rstrip("\n").split("\t")
+            out[name + "_text"] = bytes.fromhex(f[2]).decode("utf-8", "replace") if len(f) >= 3 and f[2] not in ("-", "") else p.stdout.decode() + p.stderr.decode()
+        except Exception as e:                                      # the replay stays usable without the texts
+            out[name + "_text"] = "unavailable: %s" % e
+    return out
+
+
+def stmt_correspondence(rep, broken, quick):
+    cases = os.path.join(verif.BUILD, "stmt_cases.txt")
+    rc, out = verif.sh("python3 %s %d %s > %s" % (os.path.join(verif.ROOT, "checks", "gen_stmt_cases.py"), rep.seed, "--quick" if quick else "", cases),
+                       shell=True, timeout=900)
+    g, m = cases + ".go", cases + ".ml"
+    rcg, eg = verif.parallel_map_files([os.path.join(verif.BUILD, "stmtcount")], cases, g, timeout=3000)
+    rcm, em = verif.parallel_map_files([os.path.join(verif.BUILD, "stmtcount_driver")], cases, m, timeout=3000, unlimited_stack=True)
+    n = mism = bad = 0
+    found = False
+    kinds, outside, first_diff = {}, {}, []
+    with open(cases) as fc, open(g) as fg, open(m) as fm:
+        for c, o, mo in verif.itertools_zip3(fc, fg, fm):
+            n += 1
+            kinds[c[:3]] = kinds.get(c[:3], 0) + 1
+            p = o.split("\t")
+            if o != mo:
+                # the Go code and the model differ: a concrete failing case (the theorems are about the model only)
+                mism += 1
+                if len(first_diff) < 3:
+                    first_diff.append((c[:120], o[:80], mo[:80]))
+                if mism <= 3:
+                    found = True
+                    data = {"stmt_case": c, "go": o, "model": mo}
+                    data.update(stmt_texts(c))
+                    rep.violation("input", "statement printer and its proved model differ (header count / printed children / text / tree check) on AST spec " + c[:140],
+                                  data, input_hex=c.encode().hex())
+                continue
+            why = stmt_outside(c)
+            if p[0] in ("PANIC", "NOSUBTREE") or len(p) < 5:
+                bad += 1
+                if bad <= 3:
+                    found = True
+                    rep.violation("input", "statement printer %s on AST spec %s" % (p[0], c[:140]), {"stmt_case": c, "go": o}, input_hex=c.encode().hex())
+            elif p[0] != p[1] or p[3] != "T":
+                if why is None:
+                    # inside the conditions of the theorems the model prints a tree, so this needs o == mo to be violated too; kept as a net
+                    bad += 1
+                    if bad <= 3:
+                        found = True
+                        data = {"stmt_case": c, "go": o, "model": mo, "header": p[0], "direct_children": p[1], "tree": p[3]}
+                        data.update(stmt_texts(c))
+                        rep.violation("input", "(children N) differs from the printed children in the statement subtree of AST spec " + c[:140], data,
+                                      input_hex=c.encode().hex())
+                else:
+                    outside[why] = outside.get(why, 0) + 1
+    if rc != 0 or rcg != 0 or rcm != 0 or n == 0:
+        broken.append({"obligation": "harness:gen_stmt_cases|stmtcount|stmtcount_driver", "detail": (out + eg + em)[-600:]})
+    if mism:
+        broken.append({"obligation": "correspondence:internal/explain/{statements,explain,dictionary,tables}.go~StmtExplainModel",
+                       "detail": "%d of %d cases differ: %s" % (mism, n, first_diff)})
+    # the SQL witnesses of the excluded field combinations, through the real parser and the verified checker
+    sqlw = []
+    win = os.path.join(verif.BUILD, "stmt_witness_in.txt")
+    with open(win, "w") as f:
+        f.write("".join(w[2].encode().hex() + "\n" for w in STMT_SQL_WITNESSES))
+    rcw, outw = verif.sh("%s -v < %s | %s" % (os.path.join(verif.BUILD, "explaindump"), win, os.path.join(verif.BUILD, "tree_driver")), shell=True, timeout=300)
+    verdict = {}
+    for line in outw.splitlines():
+        q = line.split("\t")
+        if len(q) >= 2:
+            verdict[q[0]] = q[-1]
+    for name, cls, sql in STMT_SQL_WITNESSES:
+        sqlw.append({"condition": name, "class": cls, "sql": sql, "verified_checker": verdict.get(sql.encode().hex(), "no-output")})
+    import gen_stmt_cases as gsc
+    return {"found": found, "stmt_model_cases": n, "stmt_model_mismatches": mism, "stmt_cases_by_kind": kinds,
+            "stmt_not_tree_outside_proved_conditions": outside,
+            "stmt_sql_witnesses": sqlw,
+            "stmt_full_product_sizes": {k: gsc.size(k) * (len(gsc.SHOW_TYPES) if k == "SHW" else 1) for k in gsc.KINDS},
+            "stmt_enumeration": "checks/gen_stmt_cases.py: per kind the full product of the domains of every field the printer reads (thorough); quick: the full product for every kind of at most %d combinations, for DRP and ATT every combination of the fields entering the tallies (the others seeded) plus a seeded sample" % gsc.QUICK_MAX}
+
+
 def replay(rec):
     import subprocess
+    if "stmt_case" in rec:
+        print(rec["stmt_case"])
+        for k, v in sorted(stmt_texts(rec["stmt_case"]).items()):
+            print("--- " + k)
+            print(v)
+        return 0
     if "ddl_case" in rec:
         print(rec["ddl_case"])
         for k, v in sorted(ddl_texts(rec["ddl_case"]).items()):
